@@ -76,7 +76,12 @@ Record route := mkRoute {
 
 Record ctrl := mkCtrl { ct_name : str; ct_prefix : str; ct_security : list sec; ct_routes : list route }.
 
-Record scheme := mkScheme { sch_name : str; sch_type : str; sch_in : str; sch_field : str }.
+(* one OAuth flow of an oauth2 scheme: implicit / password / clientCredentials / authorizationCode,
+   its URLs ("" when absent) and its scopes (name, description) *)
+Record flow := mkFlow { fl_kind : str; fl_auth_url : str; fl_token_url : str; fl_scopes : list (str * str) }.
+
+Record scheme := mkScheme {
+  sch_name : str; sch_type : str; sch_in : str; sch_field : str; sch_flows : list flow }.
 
 Record dconfig := mkDConfig {
   dc_title : str; dc_version : str; dc_base_url : str; dc_schemes : list scheme;
@@ -661,12 +666,31 @@ Definition wf (d : doc) : bool :=
 (* the other library rules generated projects can trigger: unresolved references, a schema
    type outside the JSON-schema vocabulary (an alias of time.Time prints "date-time"), paths
    that do not start with a slash, two parameters with one name in one location, repeated
-   operation ids *)
+   operation ids, templates that differ only in variable names *)
 Definition valid_type (t : str) : bool :=
   one_of t ["object"; "string"; "integer"; "number"; "boolean"; "array"]%string.
 
+(* the path with every {name} written {}: kin-openapi's Paths.Find matches templates up to the
+   names of their variables, so two routes (of any verbs) whose paths differ only there end up
+   sharing one path item under two keys and the validation fails on repeated operation ids *)
+Fixpoint anon_template_aux (p : str) (inside : bool) : str :=
+  match p with
+  | [] => []
+  | c :: t =>
+      if inside then (if beqb c rbrace then rbrace :: anon_template_aux t false else anon_template_aux t true)
+      else c :: anon_template_aux t (beqb c lbrace)
+  end.
+
+Definition anon_template (p : str) : str := anon_template_aux p false.
+
+Definition templates_distinct (d : doc) : bool :=
+  forallb (fun o => forallb (fun o' => str_eqb (dop_path o) (dop_path o') ||
+                                       negb (str_eqb (anon_template (dop_path o)) (anon_template (dop_path o'))))
+                            (doc_ops d)) (doc_ops d).
+
 Definition lib_model_ok (d : doc) : bool :=
   kin_paths_ok d &&
+  templates_distinct d &&
   refs_closed d &&
   forallb (fun nc => valid_type (k_type (snd nc))) (doc_comps d) &&
   forallb (fun o => has_prefix [slash] (dop_path o)) (doc_ops d) &&
@@ -712,9 +736,17 @@ Definition cmd (lib30 lib31 : doc -> bool) (v : dialect) (u : universe) : outcom
 (* per-clause verdicts, for classifying a failure: 1 refs, 2 path parameters, 3 duplicate
    parameters, 4 descriptions, 5 enum values, 6 configuration sections *)
 
+Definition scope_eqb (a b : str * str) : bool := str_eqb (fst a) (fst b) && str_eqb (snd a) (snd b).
+
+(* a flow advertises exactly the scopes configured for that flow *)
+Definition flow_eqb (a b : flow) : bool :=
+  str_eqb (fl_kind a) (fl_kind b) && str_eqb (fl_auth_url a) (fl_auth_url b) &&
+  str_eqb (fl_token_url a) (fl_token_url b) && mset_eqb scope_eqb (fl_scopes a) (fl_scopes b).
+
 Definition scheme_eqb (a b : scheme) : bool :=
   str_eqb (sch_name a) (sch_name b) && str_eqb (sch_type a) (sch_type b) &&
-  str_eqb (sch_in a) (sch_in b) && str_eqb (sch_field a) (sch_field b).
+  str_eqb (sch_in a) (sch_in b) && str_eqb (sch_field a) (sch_field b) &&
+  mset_eqb flow_eqb (sch_flows a) (sch_flows b).
 
 (* info / servers / securitySchemes are those of the configuration, and operations only name
    configured schemes *)
